@@ -24,7 +24,7 @@ Dom(k, L) ==
       [] k = "objstm"    -> IF L["xref"] = "stream" THEN {"none", "dicts", "dictsflate", "split"} ELSE {"none"}
       [] k = "filter"    -> {"none", "fl", "ahx", "a85", "a85fl", "ahxfl", "flpng", "fltiff"}
       [] k = "length"    -> {"direct", "refBefore", "refAfter"}
-      [] k = "size"      -> {"small", "big", "huge"}
+      [] k = "size"      -> {"small", "big", "huge", "repeat"}     \* "repeat": 12 KB of one repeated line (deflates several hundred times)
       [] k = "split"     -> 1..3
       \* the content of a page may be divided at any token boundary (7.8.2): between operations, or between an
       \* operand and its operator
